@@ -31,7 +31,8 @@ def delta_for_block(uid: int, kwspec: dict) -> dict:
             delta['throw'] = bool(val)
         elif name == 'options':
             # 'S': the run-wide shared dict (tag P0), else a fresh dict tagged with the block's uid
-            delta['options'] = 'P0' if val == 'S' else f'{val}{uid}'
+            # 'Z': a literally empty dict (an explicit reset to the default value, and a falsy one)
+            delta['options'] = 'P0' if val == 'S' else ('dflt' if val == 'Z' else f'{val}{uid}')
         elif name == 'callback':
             # 'k0'/'k1': two callback objects shared by all blocks of the run that use them
             delta['callback'] = {'u': f'c{uid}', 'D': 'default', 'R': f'r{uid}', 'k0': 'k0', 'k1': 'k1'}[val]
@@ -82,7 +83,7 @@ def predict_apply(
     must = False
     may = False
     tags: set[str] = set()
-    strict = exact and shape != 'nested'
+    strict = exact and shape not in ('nested', 'pair')
     outer_max = None
     for i, (op, cap) in enumerate(zip(ops, caps)):
         tags.add(cap['callback'])
@@ -102,8 +103,11 @@ def predict_apply(
             continue
         num, mx, ok = row
         fired[(cap['callback'], num, mx)] += 1
+        if cap['throw'] and shape == 'pair':
+            may = True  # the left inverse of a pair solves for another right-hand side than the table's
         if cap['throw'] and not ok:
-            if shape == 'nested':
+            if shape in ('nested', 'pair'):
+                # the right-hand side an inner / left inverse sees is not the table's: may, not must
                 may = True
             else:
                 must = True
@@ -287,7 +291,7 @@ def check_history(events: list, table: dict[str, list], thread_inherits: bool = 
             ref.captured[d['h']] = exp_caps
             ref.handle_meta[d['h']] = {'shape': d['shape'], 'ops': d['ops'], 'exact': d['exact']}
         elif kind == 'derive':
-            exp_caps = ref.captured[d['src']]
+            exp_caps = ref.captured[d['src']] + (ref.captured[d['src2']] if d.get('src2') is not None else [])
             if d['caps'] is not None and d['caps'] != exp_caps:
                 return bad('K', seq, {'site': 'derive:' + d['kind'], 'caps': d['caps'], 'expected': exp_caps})
             ref.captured[d['h']] = exp_caps
